@@ -352,8 +352,12 @@ def c12(tier, replay):
             if not r["ok"]:
                 v.violation("CodePointSet %s: %s" % (t["op"], r["wrong"]), {"pipeline": "cpset", "case": t})
         return v.finish("model_checking", {"evaluations": 1, "distinct_nontrivial": 1, "states": 0, "transitions": 0, "rule": "replay", "samples": [t]}, [])
-    return sem_check("C12", tier, replay, [], kinds_sem=("first", "seq", "compile"), pairs=SC.PAIRS["C02"] + SC.PAIRS["C03"],
-                     rule=SEM_RULE + " Families FC1 (bracket expressions without v: every sequence of one or two items - characters of "
+    return sem_check("C12", tier, replay, [], kinds_sem=("first", "seq", "compile", "irparse", "irpass", "irwf"),
+                     pairs=SC.PAIRS["C02"] + SC.PAIRS["C03"], want=("sem", "ir"),
+                     rule=SEM_RULE + " The tree (IR) the real parser produced for every class pattern - the interval lists and string sets the "
+                     "classes were lowered to - is judged by TLC to mean, under IRSem.tla, what the pattern means under ClassSet.tla / ESSem.tla "
+                     "(kind irparse), and every optimizer stage to mean what the parsed tree means (irpass)."
+                     " Families FC1 (bracket expressions without v: every sequence of one or two items - characters of "
                      "the s/k fold classes, ranges, class escapes and negations, Unicode properties and negations - negated or not, with "
                      "and without i and u, in three spellings) and FC2 (class sets under v and iv: leaves, all binary unions / "
                      "intersections / subtractions, nested negations, \\q{} strings incl. the empty string, one more operator level); the "
